@@ -100,7 +100,8 @@ func (t *Text) GenerateOutput(textOnly bool) string {
 		}
 
 		srcRoot = domutil.GetParentElement(srcRoot)
-		if dom.TagName(srcRoot) == "body" {
+		if srcRoot == nil || dom.TagName(srcRoot) == "body" {
+			// No more parent: the document is a fragment whose root is an inline element.
 			break
 		}
 
